@@ -152,8 +152,8 @@ def chain_side(rep, mir, L, MAXMSG, TOTAL):
 
 def controller_side(rep, mir, L):
     """Pause / Continue commands: the controller sends the message to every chain (ignoring chains that are gone) and only then answers the caller"""
-    from .c13 import _find, _storage_models, _controller_models, _chainproc, _ev
-    loop = _find(mir, r'sampler::<impl at src/sampler.rs:\d+:1: \d+:\d+>::new::\{closure#0\}::\{closure#1\}::\{closure#0\}$')
+    from .c13 import find_command_loop, _storage_models, _controller_models, _chainproc, _ev
+    loop = find_command_loop(mir)
     if loop is None: rep.unknown('C12 controller command loop not found in the MIR'); return
     A = RealAlg(); vm = VM(mir, A); install_misc(vm); _storage_models(vm); vm.loop_bound = 64
     _controller_models(vm, 2)
